@@ -169,12 +169,14 @@ PROPS = {
         "level": "exploration",
         "rule": "rapid-generated directory trees (depth <= 4, fan-out <= 6, <= 40 entries quick / 300 thorough, empty folders, zero-length files, "
                 "dot-files and dot-folders in download trees, ASCII Mac-Roman names) and (download) a per-file action script send / resume at "
-                "offset {size, 1, size-1, proportional} / skip, (upload) a server pre-seeded with complete files and partial .incomplete files; "
+                "offset {size, 1, size-1, proportional} / skip, (upload) a server pre-seeded with complete files and partial .incomplete files, and in a third of the cases a first upload whose "
+                "connection dies after a drawn number of bytes of the client's stream followed by the same upload again; "
                 "oracle download: announced item count == headers received == depth-first lexical list of entries whose own name has no leading "
                 "dot, each once with relative path and kind, size prefix == bytes that follow == header + size - offset, bytes == content[offset:]; "
-                "oracle upload: server answers == {next, send, resume:<partial size>} per item, resulting tree == streamed tree, and downloading "
+                "oracle upload: server answers == {next, send, resume:<partial size>} per item (computed from the disk state when the upload starts), "
+                "after a cut no file is under its final name with other bytes than the client's and partial data is a prefix, resulting tree == streamed tree, and downloading "
                 "the uploaded folder returns the same tree; non-trivial = tree has a nested folder and a file AND (a resume/skip action | "
-                "pre-seeded files); distinct = hash(direction, tree, script/seed)",
+                "pre-seeded files | an earlier cut upload); distinct = hash(direction, tree, script/seed, cut)",
         "assumptions": ["PreserveResourceForks off, plain files without stored forks (the property's quantifier); stored-fork behaviour is only an observation in DESIGN.md"],
         "quick": {"runs": [{"test": "^TestC10Download$", "shards": 8, "checks": 250, "timeout": 600},
                            {"test": "^TestC10Upload$", "shards": 8, "checks": 250, "timeout": 600}]},
